@@ -20,6 +20,7 @@ RULE = ("rate_of_change_test: all missing placements for n<=5 on irregular whole
         "present; length-mismatch triples for both.  distinct = (function, time carrier, length class, missing "
         "class, threshold class, set of flags); trivial = all GOOD.")
 ASSUMPTIONS = ["time axes strictly increasing with whole-second steps (the property's quantifier)",
+               "a rate is the float64 quotient |dx| / seconds (dx exact for dyadic values); a threshold equal to that quotient does not flag",
                "geographiclib.Geodesic.WGS84.Inverse called per pair is the distance ground truth; 1e-9 guard band"]
 EXHAUSTIVE_ALL = False
 
@@ -91,14 +92,18 @@ def run(ctx) -> None:
                 x = [None if pl[k] else x[k] for k in range(n)]
                 roc_case(ctx, x, t, thr, rng.choice(CARRIERS), "enum")
     ctx.exhaustive.append("rate_of_change_test: all 2^n missing placements for n<=5")
-    for _ in range(ctx.pick(400, 4000)):
+    for _ in range(ctx.pick(1200, 8000)):
         n = rng.choice([2, 3, 6, 9, 30])
         x = gen.series(rng, n)
-        t = gen.irregular(rng, n) if rng.random() < 0.7 else gen.regular(n, rng.choice([1, 60, 3600]))
+        t = (gen.irregular(rng, n, steps=(1, 2, 3, 7, 49, 60, 61, 98, 103, 107, 161, 187, 900, 3600, 86400, 200000))
+             if rng.random() < 0.7 else gen.regular(n, rng.choice([1, 49, 60, 103, 3600])))
         rates = sorted({abs(Fraction(x[k]) - Fraction(x[k - 1])) / (t[k] - t[k - 1]) for k in range(1, n)
                         if x[k] is not None and x[k - 1] is not None})
-        # thresholds: only exactly representable ones (else "on the threshold" would be decided by rounding)
-        pool = [float(r) for r in rates if Fraction(float(r)) == r] + [0, 0.125, 1, 1e-4]
+        # thresholds equal to the rates present as float64 quotients (the statement's "divided by", in float64),
+        # representable or not
+        pool = [abs(x[k] - x[k - 1]) / float(t[k] - t[k - 1]) for k in range(1, n)
+                if x[k] is not None and x[k - 1] is not None] + [0, 0.125, 1, 1e-4]
+        ctx.count("roc.threshold_is_a_rate_present")
         roc_case(ctx, x, t, rng.choice(pool), rng.choice(CARRIERS), "rand")
 
     # -- speed
